@@ -369,6 +369,9 @@ func (x *vE2Run) lockOp(fromAof bool) vE2Op {
 		o.timeout = 0
 		o.eflag = 0
 		o.expried = vPick(r, []int{1, 2, 3, 5, 8, 20, 40}, []int{20, 20, 15, 15, 10, 10, 10})
+		if r.Intn(100) < 15 {
+			o.eflag = 0x8000 // keep-alive hold replicated to this node: the follower rule (wait for the leader's record) still comes first
+		}
 		o.count = vPick(r, []int{0, 1, 2}, []int{50, 30, 20})
 		o.rcount = vPick(r, []int{0, 2}, []int{60, 40})
 	} else if r.Intn(100) < 3 {
